@@ -31,7 +31,7 @@ var c10Names = []string{"foo", "é_cmd", "iff", "endx", "msgbox", "END", "Return
 
 // c10Valid: balanced parentheses (depth <= 2 inside the list), no empty
 // argument, inline data only as a whole argument.
-const c10Contexts = 10
+const c10Contexts = 11
 
 func c10Valid(seq []argTok) bool {
 	depth := 0
@@ -202,6 +202,10 @@ func runC10(tier string) int {
 					case 9: // last command of a switch case
 						src = "script S {\n\tswitch (var(V)) {\n\t\tcase 1:\n\t\t\tpre\n\t\t\t" + csrc + "\n\t\tcase 2:\n\t\t\tpost\n\t}\n}\n"
 						want = []string{"\tpre", "\t" + cout}
+					case 10: // after a command whose moves() is one step spelled like this command's two steps joined, and whose text is spelled like this command's text with its type
+						src = "script S {\n\tpre(moves(ud), braille\"hi\")\n\t" + csrc + "\n}\n"
+						cout = strings.ReplaceAll(strings.ReplaceAll(cout, "S_Movement_0", "S_Movement_1"), "S_Text_0", "S_Text_1")
+						want = []string{"\tpre S_Movement_0, S_Text_0", "\t" + cout}
 					default: // inside an if body (optimize: body chunk follows)
 						src = "script S {\n\tif (flag(F)) {\n\t\tpre\n\t\t" + csrc + "\n\t\tpost\n\t}\n}\n"
 						want = []string{"\tpre", "\t" + cout, "\tpost"}
@@ -220,7 +224,7 @@ func runC10(tier string) int {
 					got := nonBlank(strings.Split(res.Out, "\n"))
 					if ctx >= 4 {
 						// inside an if body only the straight-line stretch is compared (chunk labels and jumps are C01's business)
-						got = stretchOf(got, "\tpre", len(want))
+						got = stretchOf(got, want[0], len(want))
 					}
 					wantAll := append([]string{}, want...)
 					if hasMoves && ctx < 4 {
@@ -229,7 +233,19 @@ func runC10(tier string) int {
 					if hasText && ctx < 4 {
 						wantAll = append(wantAll, "", "S_Text_0:", "\t.string \"hi$\"")
 					}
-					if ctx >= 4 {
+					if ctx == 10 {
+						for _, blk := range []string{"S_Movement_0:\n\tud\n\tstep_end", "S_Text_0:\n\t.braille \"hi$\""} {
+							if !strings.Contains(res.Out, blk) {
+								wantAll = append(wantAll, "<missing: "+blk+">")
+							}
+						}
+						if hasText && !strings.Contains(res.Out, "S_Text_1:\n\t.string \"hi$\"") {
+							wantAll = append(wantAll, "<missing: S_Text_1 with .string \"hi$\">")
+						}
+						if hasMoves && !strings.Contains(res.Out, "S_Movement_1:\n\tu\n\td\n\tstep_end") {
+							wantAll = append(wantAll, "<missing: S_Movement_1 with u d step_end>")
+						}
+					} else if ctx >= 4 {
 						if hasText && !strings.Contains(res.Out, "S_Text_0:\n\t.string \"hi$\"") {
 							wantAll = append(wantAll, "<missing: S_Text_0 with .string \"hi$\">")
 						}
@@ -316,5 +332,5 @@ func runC10(tier string) int {
 	r.Assume("expected line = name, then the source tokens joined by single spaces with no space before a comma; constants replaced by their value; an inline text / moves() that is a whole argument replaced by its label",
 		"no empty arguments, inline data only as whole arguments, parentheses balanced to depth 2 (the property's domain)")
 	return r.Finish(r.Get("evaluations"), r.Get("nontrivial"),
-		"every argument token sequence of length <= L over a 24-token alphabet (identifiers incl. multi-byte, keywords, decimal/negative/hex numbers, operators, an illegal character, parentheses, comma, two constants, inline text, moves()) that is in the domain, with 11 command names incl. case variants of end / return / goto / call (all names for <= 1 token, rotating beyond), in 10 contexts (alone, middle of a stretch, twice in a row, all on one line, inside an if body, inside a poryswitch case selected through _ / directly, last command of an if body / loop body / switch case); plus commands with K arguments and stretches of K commands for every K up to the bound in the coverage; the whole emitted file is compared byte for byte with the generator's expectation; non-trivial = >= 2 arguments and nested parentheses")
+		"every argument token sequence of length <= L over a 24-token alphabet (identifiers incl. multi-byte, keywords, decimal/negative/hex numbers, operators, an illegal character, parentheses, comma, two constants, inline text, moves()) that is in the domain, with 11 command names incl. case variants of end / return / goto / call (all names for <= 1 token, rotating beyond), in 11 contexts (after a command whose inline data are spelled like this command's data joined / typed, alone, middle of a stretch, twice in a row, all on one line, inside an if body, inside a poryswitch case selected through _ / directly, last command of an if body / loop body / switch case); plus commands with K arguments and stretches of K commands for every K up to the bound in the coverage; the whole emitted file is compared byte for byte with the generator's expectation; non-trivial = >= 2 arguments and nested parentheses")
 }
